@@ -5,7 +5,7 @@
 use std::{borrow::Cow, collections::BTreeMap};
 
 use ruma_common::{
-    serde::{from_raw_json_value, ignore_invalid_vec_items},
+    serde::{from_raw_json_value, ignore_invalid_vec_items, JsonObject},
     space::SpaceRoomJoinRule,
     OwnedRoomId,
 };
@@ -136,25 +136,29 @@ impl<'de> Deserialize<'de> for JoinRule {
     where
         D: Deserializer<'de>,
     {
-        let json: Box<RawJsonValue> = Box::deserialize(deserializer)?;
+        // Go through a JSON object rather than a `RawJsonValue`: a raw value cannot be
+        // deserialized when this type is flattened into another struct, as happens in the
+        // derived `Deserialize` implementation of `RedactedRoomJoinRulesEventContent`.
+        let json = JsonObject::deserialize(deserializer)?;
 
-        #[derive(Deserialize)]
-        struct ExtractType<'a> {
-            #[serde(borrow)]
-            join_rule: Option<Cow<'a, str>>,
-        }
+        let join_rule = match json.get("join_rule") {
+            Some(JsonValue::String(join_rule)) => join_rule.clone(),
+            Some(JsonValue::Null) | None => return Err(D::Error::missing_field("join_rule")),
+            Some(_) => {
+                return Err(D::Error::custom("invalid type for field `join_rule`, expected a string"))
+            }
+        };
 
-        let join_rule = serde_json::from_str::<ExtractType<'_>>(json.get())
-            .map_err(Error::custom)?
-            .join_rule
-            .ok_or_else(|| D::Error::missing_field("join_rule"))?;
-
-        match join_rule.as_ref() {
+        match join_rule.as_str() {
             "invite" => Ok(Self::Invite),
             "knock" => Ok(Self::Knock),
             "private" => Ok(Self::Private),
-            "restricted" => from_raw_json_value(&json).map(Self::Restricted),
-            "knock_restricted" => from_raw_json_value(&json).map(Self::KnockRestricted),
+            "restricted" => serde_json::from_value(JsonValue::Object(json))
+                .map(Self::Restricted)
+                .map_err(D::Error::custom),
+            "knock_restricted" => serde_json::from_value(JsonValue::Object(json))
+                .map(Self::KnockRestricted)
+                .map_err(D::Error::custom),
             "public" => Ok(Self::Public),
             _ => Ok(Self::_Custom(PrivOwnedStr(join_rule.into()))),
         }
@@ -329,6 +333,26 @@ mod tests {
         let allow_rule: AllowRule = serde_json::from_str(json).unwrap();
         assert_matches!(&allow_rule, AllowRule::_Custom(_));
         assert_eq!(serde_json::to_string(&allow_rule).unwrap(), json);
+    }
+
+    #[test]
+    fn deserialize_redacted() {
+        use super::RedactedRoomJoinRulesEventContent;
+
+        let json = r#"{"join_rule": "public"}"#;
+        let content: RedactedRoomJoinRulesEventContent = serde_json::from_str(json).unwrap();
+        assert_eq!(content.join_rule, JoinRule::Public);
+
+        let json = r#"{
+            "join_rule": "restricted",
+            "allow": [{ "type": "m.room_membership", "room_id": "!mods:example.org" }]
+        }"#;
+        let content: RedactedRoomJoinRulesEventContent = serde_json::from_str(json).unwrap();
+        assert_matches!(content.join_rule, JoinRule::Restricted(restricted));
+        assert_eq!(
+            restricted.allow,
+            &[AllowRule::room_membership(owned_room_id!("!mods:example.org"))]
+        );
     }
 
     #[test]
